@@ -25,6 +25,9 @@ FOCUS = """ (a) a particular multi-step SEQUENCE of public calls on one object (
  (c) TWO cooperating sites that each look fine alone (a helper's contract or a storage convention changed and only some of its callers adapted; a writer and its reader changed consistently but a third consumer not; a default changed in one place and documented/assumed in another),
  (d) a particular thread count, OpenMP vs serial build, or a size threshold above which a different code path is taken,
  (e) a COMBINATION of two options or settings that are each exercised alone but rarely together (for example NAC with compact force constants and a non-diagonal supercell; eigenvectors with band selection and symmetry off; a primitive matrix together with a non-default tolerance),
+ (g) an ERROR PATH or partial failure: an exception raised part-way through a public operation (bad argument, unreadable file, non-converged fit) that leaves the object in a half-updated state which a later, valid call silently trusts; an input that used to be rejected with a clear error is now accepted and gives wrong results (or a valid input is now rejected only under a rare condition),
+ (h) the DESCRIPTION of the crystal: left-handed lattice vectors (negative cell volume), a sheared / non-reduced / permuted basis, atoms outside [0,1), a primitive cell whose atom order differs from the order of first appearance in the supercell, a supercell matrix with negative or large off-diagonal entries - results must not depend on such choices,
+ (i) the TYPE of an argument: float32 / int32 / int64 / Fortran-ordered / non-contiguous / read-only arrays, Python lists or tuples, numpy scalars vs Python numbers, str vs bytes vs pathlib paths, dict subclasses - where the code converts or copies in one place but not another,
  (f) a numerical shortcut that is exact for round numbers and textbook cells but loses the property for generic real-valued data (a tolerance with the wrong unit or the wrong power, a comparison done before instead of after a transformation, rounding that assumes a scale, an early exit or skip condition that can be met by non-trivial data, an accumulation in lower precision)."""
 
 for p in props:
@@ -42,7 +45,7 @@ Code the property is anchored in: {anchors}
 
 Task: produce ONE realistic change to the source under {wt} (Python and/or C) that BREAKS this property while everything still compiles/imports and the existing test suite still passes exactly as before. It must look like a plausible refactoring, optimisation, clean-up or bug fix gone wrong that a maintainer could merge, and it must be SUBTLE: choose something that only manifests under ONE of
 {FOCUS}
-Do NOT produce a change that an ordinary first test (a cubic NaCl/Si example with default options) would expose. Choose a file/mechanism and a KIND of defect DIFFERENT from these, which have already been tried for this property (do not repeat or vary them trivially; prefer a focus letter and a source file none of them used):
+Do NOT produce a change that an ordinary first test (a cubic NaCl/Si example with default options) would expose. Choose a file/mechanism and a KIND of defect DIFFERENT from these, which have already been tried for this property (do not repeat or vary them trivially; prefer a focus letter and a source file none of them used; in this round prefer the letters (g), (h), (i) and (e)):
 {tl}
 
 Sandbox facts: the compiled extension phonopy._phonopy is NOT built here, so only 81 tests of the suite pass: `cd {wt} && /venv/bin/python -m pytest -q -p no:cacheprovider --timeout=900 2>&1 | tail -3` must still say 81 passed after your change (compare the set of passing test ids with the unmodified tree if in doubt). The C kernels compile with `gcc -O2 -Wall -fPIC -shared -fopenmp -DTHM_EPSILON=1e-10 c/phonopy.c c/dynmat.c c/derivative_dynmat.c c/rgrid.c c/tetrahedron_method.c -o <dir>/libphpy.so -lm` and are callable through ctypes (signatures in c/phonopy.h). To run Python code that does `import phonopy._phonopy as phonoc`, write a small ctypes stand-in module (function names and argument order exactly as the `py_*` glue functions in c/_phonopy.cpp) and register it as sys.modules['phonopy._phonopy'] before importing phonopy; use PYTHONPATH=<tree> and /venv/bin/python (numpy, spglib, h5py, yaml available; scipy is not in /venv but can be installed for your demo only with `/venv/bin/pip install --no-index --find-links /opt/veriftools/wheels --no-deps --target {wt}-out/deps scipy`). symfc, seekpath, pypolymlp are not available. Simple harmonic test crystals: pair-potential force constants Phi(i,j) = -sum_images [a(r) I + b(r) r r^T], Phi(i,i) = -sum_(j!=i) Phi(i,j).
